@@ -445,6 +445,65 @@ fn check_serializable_history(f: usize, k: usize) -> Verdict {
 
 // ---- consecutive inputs that compare equal but are distinguishable -------------------------------------------------
 
+/// Membership tests against a long list held by a symbol, asked repeatedly of one ruleset instance: items equal under ==
+/// but spelled differently (d2.0 / d2.00, 0.0 / -0.0), before and after lookups that had to scan the whole list.
+fn check_symbol_list_history(variant: usize) -> Verdict {
+    let n = [8usize, 31, 32, 33, 40, 100][variant % 6];
+    let mut items: Vec<Value> = (0..n as i128).map(|k| Value::Int(1000 + k)).collect();
+    items[n / 2] = crate::pool::dec(20, 1);
+    items[n / 3] = Value::Float(0.0);
+    items[n - 1] = Value::String("last".into());
+    let spec = SetSpec {
+        rules: vec![
+            ("in".into(), Expr::contains(Expr::symbol("big"), Expr::reff("x"))),
+            ("in-path".into(), Expr::contains(Expr::index(Expr::symbol("wrap"), reval::expr::Index::Map("l".into())), Expr::reff("x"))),
+        ],
+        fns: BTreeMap::new(),
+        symbols: [("big".to_string(), Value::Vec(items.clone())), ("wrap".to_string(), crate::pool::map(&[("l", Value::Vec(items.clone()))]))].into_iter().collect(),
+        suspend: 0,
+    };
+    let probes: Vec<Value> = vec![
+        crate::pool::dec(200, 2),
+        Value::String("last".into()),
+        crate::pool::dec(200, 2),
+        Value::Float(-0.0),
+        Value::Int(5),
+        Value::Float(-0.0),
+        crate::pool::dec(2, 0),
+        Value::Float(f64::NAN),
+        Value::Int(1000),
+        crate::pool::dec(20, 1),
+    ];
+    let built = probe::build(&spec, false);
+    for (step, x) in probes.iter().enumerate() {
+        let input = crate::pool::map(&[("x", x.clone())]);
+        let got = catch(|| block_on(built.ruleset.evaluate_value(&input)).map(detach).map_err(|e| e.to_string()))
+            .map_err(|p| Issue::new("sched:panic", format!("evaluation panicked: {p}")))?
+            .map_err(|e| Issue::new("sched:symbol-list-history", format!("evaluate_value failed as a whole: {e}")))?;
+        for (k, (name, e)) in spec.rules.iter().enumerate() {
+            let mut env = me::Env::new(&input, &spec.symbols, &spec.fns);
+            let want = me::eval(e, &mut env);
+            let same = match (&got[k].1, &want) {
+                (Ok(a), Ok(b)) => same_value(a, b, true),
+                (Err(_), Err(_)) => true,
+                _ => false,
+            };
+            if !same {
+                return Err(Issue::new(
+                    "sched:symbol-list-history",
+                    format!(
+                        "lookup {step} of the sequence {:?} in a {n}-item list held by a symbol (one ruleset instance): rule {name} gives {:?} but on a fresh ruleset {}",
+                        probes.iter().map(show_value).collect::<Vec<_>>(),
+                        got[k].1.as_ref().map(show_value),
+                        me::show_model(&want)
+                    ),
+                ));
+            }
+        }
+    }
+    Ok(())
+}
+
 /// One ruleset instance (with or without user functions) evaluates a sequence of inputs in which neighbours are equal
 /// under `==` yet different (0.0 / -0.0, d1.0 / d1.00, inside lists and maps); every outcome must be what the
 /// stateless reference gives for that input alone.
@@ -458,6 +517,9 @@ fn check_twin_inputs(i: usize) -> Verdict {
         vec![crate::pool::map(&[("k", crate::pool::dec(100, 2))]), crate::pool::map(&[("k", crate::pool::dec(1, 0))])],
         vec![Value::Int(1), Value::Int(1), Value::Int(2), Value::Int(1)],
     ];
+    if i >= 12 {
+        return check_symbol_list_history(i - 12);
+    }
     let with_functions = i % 2 == 1;
     let seq = &sequences[(i / 2) % sequences.len()];
     let x = || Expr::reff("x");
@@ -655,7 +717,7 @@ pub fn run(ctx: &Ctx) {
         .collect();
     ctx.enumerate(
         "twin-input-histories",
-        12,
+        18,
         true,
         |i, acc| {
             acc.cell("history:equal-but-distinguishable-inputs", true);
